@@ -89,6 +89,17 @@ def gzip_ctor(ctx):
     return {"enum": e["path"], "gz": gzv, "raw": rawv[0] if rawv else None, "dead": deadv[0] if deadv else None, "ctors": ctors}
 
 
+def _variants_of(v, enum, depth=0):
+    """variants of `enum` that occur as aggregates inside value v"""
+    out = []
+    if is_agg(v) and depth < 6:
+        if v[2] == enum:
+            out.append(v[3])
+        for _, x in v[4]:
+            out += _variants_of(x, enum, depth + 1)
+    return out
+
+
 def head_no_writer(ctx, rule):
     B = find_builder(ctx)
     r = B["roles"]
@@ -223,6 +234,22 @@ def coding_agreement(ctx):
             cname = wt[1] if isinstance(wt, tuple) and wt[0] == "call" else None
             is_gz = cname in {c for c in G["ctors"].get(G["gz"], ())} or any(cname and cname == c for c in G["ctors"].get(G["gz"], ()))
             is_raw = any(cname and cname == c for c in G["ctors"].get(G["raw"], ()))
+            if is_gz and is_raw:
+                # one constructor builds either variant (e.g. `new(w, Option<Compression>)`): which one it builds for the
+                # arguments of this row is read off its own MIR, applied to those arguments
+                kinds = set()
+                for o2 in ctx.px(cname, inline=lambda c, d: True, key=("ctor-at", repr(wt[2])[:2000]), args=list(wt[2])):
+                    if o2.kind != "return":
+                        continue
+                    vs_ = [x for x in _variants_of(o2.value, G["enum"])]
+                    kinds.update(vs_ or ["?"])
+                if kinds == {G["gz"]}:
+                    is_raw = False
+                elif kinds == {G["raw"]}:
+                    is_gz = False
+                else:
+                    ctx.violation("C17.R2", "C17.R2|writer-ctor", "%s: which writer %s builds for these arguments cannot be decided (%s)" % (label, cname, sorted(kinds)))
+                    continue
             if not (is_gz or is_raw):
                 ctx.violation("C17.R2", "C17.R2|writer-ctor", "%s: writer is built by %s, which is neither the gzip nor the identity constructor" % (label, cname))
                 continue
